@@ -457,14 +457,14 @@ Qed.
 Definition homogeneous (f : car S -> R) : Prop := forall a x, f (sscal S a x) = a * f x.
 
 (* f * s is documented as x -> f(s x) *)
-Lemma f_mul_scalar_value vs (e : Rexpr S) (s : R) (x : car S) :
-  (is_linear vs e = true -> homogeneous (value e)) ->
-  value (f_mul_scalar vs e s) x = value e (sscal S s x).
+Lemma f_mul_scalar_value (e : Rexpr S) (s : R) (x : car S) :
+  (is_linear e = true -> homogeneous (value e)) ->
+  value (f_mul_scalar e s) x = value e (sscal S s x).
 Proof.
   intro Hlin. unfold f_mul_scalar; numR.
   destruct (Reqb_spec s 0) as [->|Hs].
   - cbn. rewrite (scal_0 S L). reflexivity.
-  - destruct (is_linear vs e) eqn:El; cbn [value]; numR; [|reflexivity].
+  - destruct (is_linear e) eqn:El; cbn [value]; numR; [|reflexivity].
     symmetry. apply Hlin. reflexivity.
 Qed.
 (* s * f *)
@@ -488,8 +488,8 @@ Proof.
 Qed.
 End Overloads.
 
-(* is_linear flags: with the repaired FunctionalQuadraticPerturb flag every
-   tree flagged linear is homogeneous (given sound leaf/operator flags) *)
+(* is_linear flags: every tree flagged linear is homogeneous (given sound
+   leaf/operator flags) *)
 Fixpoint lin_flags_ok {S} (e : Rexpr S) : Prop :=
   match e with
   | @FLeaf _ X l => lf_linear l = true -> forall a x, lf_val l (sscal X a x) = a * lf_val l x
@@ -502,15 +502,16 @@ Fixpoint lin_flags_ok {S} (e : Rexpr S) : Prop :=
 
 Lemma is_linear_homogeneous : forall (S : RSpace) (e : Rexpr S),
   SpaceLaws S -> lin_flags_ok e ->
-  is_linear (mkVariants true) e = true -> forall a x, value e (sscal S a x) = a * value e x.
+  is_linear e = true -> forall a x, value e (sscal S a x) = a * value e x.
 Proof.
   intros S e. induction e as
     [S l | S s f IH | S f IH s | S f IH v | S f IHf g IHg | S f IH t | S1 S2 f IH A
     | S f IH q u c | S f IHf g IHg | S f IHf g IHg | S f IH p s]; intros L Hf Hl a x;
-    cbn [is_linear lin_flags_ok value v_qp_lin_const] in *; try discriminate.
+    cbn [is_linear lin_flags_ok value] in *; try discriminate.
   - auto.
   - numR. rewrite (IH L Hf Hl). ring.
   - rewrite (scal_scal S L), (Rmult_comm s a), <- (scal_scal S L). apply (IH L Hf Hl).
+  - rewrite (mul_scal_r S L). apply (IH L Hf Hl).
   - apply andb_true_iff in Hl. destruct Hl as [H1 H2]. destruct Hf as [Hf1 Hf2]. numR.
     rewrite (IHf L Hf1 H1), (IHg L Hf2 H2). ring.
   - apply andb_true_iff in Hl. destruct Hl as [H1 H2]. destruct Hf as [Hf1 [L2 Hop]].
@@ -537,9 +538,9 @@ Proof.
   - exact (op_id_sound S L x). - exact (op_scal_sound S L s x).
   - exact (op_mult_sound S L v x). - exact (op_square_sound S L x).
 Qed.
-Lemma f_mul_scalar_repaired (S : RSpace) (e : Rexpr S) :
+Lemma f_mul_scalar_documented (S : RSpace) (e : Rexpr S) :
   SpaceLaws S -> lin_flags_ok e -> forall s x,
-  value (f_mul_scalar (mkVariants true) e s) x = value e (sscal S s x).
+  value (f_mul_scalar e s) x = value e (sscal S s x).
 Proof.
   intros L Hf s x. apply (f_mul_scalar_value S L).
   intro Hl. exact (is_linear_homogeneous S e L Hf Hl).
